@@ -187,7 +187,7 @@ def run(ctx):
         clis[mod] = p
     quick = ctx.tier == "quick"
     reps = 5 if quick else 20
-    terms, jsons, err = run_farm(ctx, binp, clis, ["-n", 4 if quick else 24, "-reps", reps], "hash")
+    terms, jsons, err = run_farm(ctx, binp, clis, ["-n", 3 if quick else 18, "-reps", reps], "hash")
     if err:
         ctx.report({"unchecked": "hash farm run", "detail": err[-3000:]}, {"kind": "harness"}, failing_input=False)
         return
@@ -215,7 +215,7 @@ def run(ctx):
     # two generations differ: more definitions of the affected generators (those named by the failing
     # cases and those whose packages gained or lost a map range), 8 generations in one process + 8 in
     # separate processes each.
-    if (bad and not any(c == 1 for _, c in bad)) or not tie_ok:
+    if not any(c == 1 for _, c in bad) and (bad or not tie_ok):
         affected = sorted({jsons[i]["def"]["gen"] for i, _ in bad} | tie_generators(ctx, tie_ok))
         ctx.log("widened search for two differing generations (%s)" % ",".join(affected))
         per = 6 if quick else 24
